@@ -107,12 +107,26 @@ def choice_diff(req):
     pop = ["a", "b"]
     for args, kw, exc in (((pop, [1]), {}, "ValueError"), ((pop, [1, 2, 3]), {}, "ValueError"), ((pop, [0, 0]), {}, "ValueError"),
                           ((pop, [1, float("inf")]), {}, "ValueError"), ((pop, [1, 2]), {"cum_weights": [1, 3]}, "TypeError"),
-                          ((pop,), {"cum_weights": [1]}, "ValueError"), ((pop,), {"cum_weights": [0, 0]}, "ValueError")):
+                          ((pop,), {"cum_weights": [1]}, "ValueError"), ((pop,), {"cum_weights": [0, 0]}, "ValueError"),
+                          ((pop, [1, float("nan")]), {}, "ValueError"), ((pop, [float("nan"), 1]), {}, "ValueError"), ((pop, [float("inf"), float("-inf")]), {}, "ValueError"),
+                          ((pop,), {"cum_weights": [1, float("nan")]}, "ValueError"), ((pop,), {"cum_weights": [1, float("inf")]}, "ValueError"),
+                          ((pop, [-1, -1]), {}, "ValueError"), ((pop, [1, -2]), {}, "ValueError"), ((pop, []), {}, "ValueError"), ((pop,), {"cum_weights": []}, "ValueError")):
         res = _with_pos(Fraction(1, 4), b.deterministic_choice, "unit", *args, **kw)
         evals += 1
         distinct.add((repr(args), repr(kw)))
         if not (res["outcome"] == "raise" and res["exc"] == exc) and len(fails) < limit:
             fails.append({"args": enc(args), "kwargs": enc(kw), "expected": {"outcome": "raise", "exc": exc}, "observed": res})
+    # running totals of mixed int / float type (a total that happens to be an int after fractional partial sums)
+    for cumm in ([0.25, 0.5, 0.75, 1], [0.5, 1], [1.5, 3], [0.5, 1.5, 2], [1, 1.5, 2.5], [2, 2.5]):
+        n = len(cumm)
+        pop = ["g%d" % i for i in range(n)]
+        for k in _boundary_us([Fraction(c) for c in cumm]):
+            u = Fraction(k, TWO32)
+            res = _with_pos(u, b.deterministic_choice, "unit", pop, cum_weights=list(cumm))
+            exp = scheme.spec_choice(n, None, [Fraction(c) for c in cumm], u)
+            evals += 1
+            if not (res["outcome"] == "return" and exp["outcome"] == "return" and res["value"] == pop[exp["index"]]) and len(fails) < limit:
+                fails.append({"cum_weights": enc(list(cumm)), "form": "cum_weights(mixed int/float)", "u": "%d/2^32" % k, "expected": exp, "observed": res})
     # arguments are never modified, whatever their container type and however close their total is to a 'round' number
     for ws0 in ([0.1] * 10, [0.7, 0.2, 0.1], [0.1] * 3, [1, 2, 3], [0.5, 0.5], [1e-17, 1.0], [3.3333333333333335, 3.3333333333333335, 3.333333333333333]):
         cum0 = list(itertools.accumulate(ws0))
@@ -311,7 +325,8 @@ def lifecycle_diff(req):
         # quick tier: the four-step histories of the thorough tier use the whole alphabet; three-step ones a core subset
         skip = ('def e2 {', 'def e1 { splitters: uid /* c */', 'def e1 { splitters: uid return "A" weighted 1, "B" weighted 1 ', 'def e1 { splitters: uid return "A" weighted 1 } def e2',
                 'def e1 { salt: "a/*')
-        texts = [t for t in texts if not t.startswith(skip)]
+        exact = ('def e1 { splitters: uid return "A" weighted 1, "B" weighted 1 ',)      # the truncated text (a PREFIX of several others: compare exactly)
+        texts = [t for t in texts if t not in exact and not t.startswith(tuple(x for x in skip if x not in exact))]
     # values that compare (and hash) equal but print differently follow each other: a result remembered per argument value
     # instead of per printed key shows up against the per-call-fresh reference below
     inputs = [{"uid": "u1"}, {"uid": "u2"}, {"uid": 17}, {"uid": "u1", "extra": 1}, {"uid": 1}, {"uid": True}, {"uid": 1.0}, {"uid": 0}, {"uid": False}, {"uid": -0.0},
@@ -394,7 +409,10 @@ def lifecycle_diff(req):
 
 
 CORPUS_EXTRA = [
+    'def e{splitters:u return "blue" weighted 1,"green" weighted 1,"blue" weighted 1,"red" weighted 1,"green" weighted 2}',
+    'def e{splitters:zeta,alpha,mid,beta return "a" weighted 1,"b" weighted 1,"c" weighted 1,"d" weighted 1}',
     'def e{return "A" weighted 1,"B" weighted 1}',
+    'def e{splitters:u if t<-5{return -1 weighted 1,-2.5 weighted 1}else if x in(-1,7,-0.5){return "n" weighted 1}else if -3==y{return "m" weighted 1}else{return "p" weighted 1}}',
     'def e{salt:"s" splitters:a,b if a>=1 and not b in(1,2)or a<=-3{return 1 weighted 1}else if a!=2{return 2.5 weighted 0.5}else{return "x" weighted 2}}',
     'def e{splitters:u if x not in("p","q"){if y=="z"{return "A" weighted 1}}else{return "B" weighted 1}}',
     'def e {\n splitters: u\n if x not\n in (1, 2) {\n return "A" weighted 1\n } else\n if x == 1 {\n return "B" weighted 1\n } else\n\n {\n return "C" weighted 1\n }\n}',
@@ -439,8 +457,11 @@ def trivia_diff(req):
         if base[0] != "ok" or base[1] is None:
             continue
         progs += 1
-        with contextlib.redirect_stdout(sink):
-            spans = [(t.index, t.end) for t in lx.ExperimentLexer().tokenize(text)]
+        # token boundaries as the DOCUMENTED scanner sees them (the code under test must not decide where trivia may go)
+        from spec import lex_ref
+        spans = []
+        if lex_ref.scan(text, spans)[0] != "ok":
+            continue
         cuts = sorted({0, len(text)} | {e for _, e in spans} | {s for s, _ in spans})
         # adjacent-token positions where inserting trivia cannot glue or split tokens: only at token boundaries
         # that are already separated (a boundary between two tokens, or text ends)
